@@ -55,6 +55,10 @@ def _pair(rng, tier):
         spec["cap"] = rng.randint(max(wf_idx), n - 1) + 0.5
     if rng.random() < 0.15:
         spec["lm1"] = -1.5
+        if rng.random() < 0.5:
+            spec["shift"] = 1.5           # lambda_minus_one == 0.0
+    elif spec.get("cap") is not None and rng.random() < 0.3:
+        spec["shift"] = -spec["cap"]      # interface_cap == 0.0
     N = rng.randint(8, 40) if rng.random() < 0.7 else rng.randint(40, 160)
     spec["steps"] = N
     nsplit = rng.choice([1, 1, 2, 3])
